@@ -343,6 +343,41 @@ class FnWiring:
                 self.assign(tt, comp, env)
         # attribute / subscript stores: recorded as mutations by the rules that care
 
+    def _field_store(self, t, v, st, env, guards):
+        """`obj.field = value` / `obj[const] = value` on something other than the instance itself: recorded with the appends (operation 'store'),
+        together with the class tests on that very object under which the store happens."""
+        if not isinstance(t, (ast.Attribute, ast.Subscript)):
+            return
+        if isinstance(t, ast.Subscript) and not isinstance(t.slice, ast.Constant):
+            return
+        def uncast(e):
+            # cast(T, x) is x
+            while isinstance(e, ast.Call) and isinstance(e.func, ast.Name) and e.func.id == "cast" and len(e.args) == 2:
+                e = e.args[1]
+            return e
+        root = uncast(t)
+        path = []
+        while isinstance(root, (ast.Attribute, ast.Subscript)):
+            path.append("." + root.attr if isinstance(root, ast.Attribute) else f"[{S.unparse(root.slice)}]")
+            root = uncast(root.value)
+        if not isinstance(root, ast.Name) or (self.is_method and root.id == self.selfname) or root.id not in env:
+            return
+        key = root.id + "".join(reversed(path))
+        obj = S.unparse(uncast(t.value))
+        cg = []
+        for g in guards:
+            if g[0] == "if" and len(g) > 3 and isinstance(g[3], ast.If):
+                test, pos = g[3].test, g[2]
+                if isinstance(test, ast.UnaryOp) and isinstance(test.op, ast.Not):
+                    test, pos = test.operand, not pos
+                if isinstance(test, ast.Call) and isinstance(test.func, ast.Name) and test.func.id == "isinstance" and len(test.args) == 2 and S.unparse(test.args[0]) == obj:
+                    cls = sorted(S.unparse(c).split(".")[-1] for c in (test.args[1].elts if isinstance(test.args[1], ast.Tuple) else [test.args[1]]))
+                    cg.append(("" if pos else "not ") + "|".join(cls))
+        op = "store" + (f"[only if {' and '.join(cg)}]" if cg else "")
+        self.appends.setdefault(key, []).append((frozenset(v), op, st, guards))
+        self.append_roots = getattr(self, "append_roots", {})
+        self.append_roots.setdefault(key, (root.id, set(), st.lineno))[1].update(d for d in env.get(root.id, ()) if d[0] != "appended")
+
     def merge(self, envs):
         out = {}
         for e in envs:
@@ -389,10 +424,13 @@ class FnWiring:
             v = self.ev(st.value, env, guards)
             for t in st.targets:
                 self.assign(t, v, env)
+                self._field_store(t, v, st, env, guards)
             return env
         if isinstance(st, ast.AnnAssign):
             if st.value is not None:
-                self.assign(st.target, self.ev(st.value, env, guards), env)
+                v = self.ev(st.value, env, guards)
+                self.assign(st.target, v, env)
+                self._field_store(st.target, v, st, env, guards)
             return env
         if isinstance(st, ast.AugAssign):
             v = self.ev(st.value, env, guards)
